@@ -107,7 +107,8 @@ impl StringNumber {
             // a unit multiplies by a power of ten; a bare unit counts as 1 x unit
             sn_m(*final(self)) == (if old(self).significand@.len() == 0 { 1 } else { sn_m(*old(self)) }),
             sn_e(*final(self)) == sn_e(*old(self)) + i,
-            final(self).significand@.len() > 0,
+            final(self).significand@.len() > 0, final(self).significand@.len() <= old(self).significand@.len() + 1,
+            final(self).scale == old(self).scale + i,
 //@  atend
         proof { if old(self).significand@.len() == 0 { lemma_dval_push(old(self).significand@, dch(1)); } }
 //@end
@@ -150,6 +151,14 @@ impl StringNumber {
             // refused exactly when the digits of the addend would overlap the digits already present
             r == (old(number).significand@.len() == 0 || old(self).significand@.len() == 0
                   || max0(sn_e(*old(self))) >= old(number).significand@.len() + sn_e(*old(number))),
+            // frame: sizes and the place of the decimal point
+            final(self).scale <= old(self).scale || final(self).scale <= old(number).scale,
+            final(self).significand@.len() <= old(self).significand@.len() + old(self).scale + old(number).significand@.len(),
+            final(self).significand@.len() >= old(self).significand@.len(),
+            final(number).scale <= old(number).scale,
+            old(self).point != 0 ==> final(self).point != 0,
+            final(number).point != 0,
+            final(number).significand@.len() == 0 ==> final(number).point == old(number).point,
 //@  atstart
         let ghost me0 = *self;
         let ghost nu0 = *number;
@@ -259,5 +268,72 @@ impl StringNumber {
 //@end
 
 }
+//@extract sudachi/src/plugin/path_rewrite/join_numeric/numeric_parser/mod.rs :: enum Error
+//@  derive PartialEq, Eq, Structural
+//@end
+//@extract sudachi/src/plugin/path_rewrite/join_numeric/numeric_parser/mod.rs :: struct NumericParser
+//@  derive
+//@end
+//@include specs/nparse_specs.rs.inc
+
+impl NumericParser {
+//@extract sudachi/src/plugin/path_rewrite/join_numeric/numeric_parser/mod.rs :: impl NumericParser :: fn is_small_unit
+//@  ret r
+//@  spec
+        ensures r == (-3 <= n && n < 0)
+//@end
+//@extract sudachi/src/plugin/path_rewrite/join_numeric/numeric_parser/mod.rs :: impl NumericParser :: fn is_large_unit
+//@  ret r
+//@  spec
+        ensures r == (n < -3)
+//@end
+//@extract sudachi/src/plugin/path_rewrite/join_numeric/numeric_parser/mod.rs :: impl NumericParser :: fn new
+//@  ret r
+//@  spec
+        ensures np_wf(r), np_zero(r), np_size(r) == 0,
+//@end
+//@extract sudachi/src/plugin/path_rewrite/join_numeric/numeric_parser/mod.rs :: impl NumericParser :: fn clear
+//@  spec
+        ensures np_wf(*final(self)), np_zero(*final(self)), np_size(*final(self)) == 0,
+//@end
+//@extract sudachi/src/plugin/path_rewrite/join_numeric/numeric_parser/mod.rs :: impl NumericParser :: fn check_comma
+//@  ret r
+//@  spec
+        requires sn_wf(self.tmp),
+//@end
+//@extract sudachi/src/plugin/path_rewrite/join_numeric/numeric_parser/mod.rs :: impl NumericParser :: fn append
+//@  rw R14 1 custom
+//@  | CHAR_TO_NUM\.get\(c\)
+//@  > char_to_num(c)
+//@  ret r
+//@  spec
+        requires np_wf(*old(self)), np_size(*old(self)) <= 0x1000_0000,
+        ensures
+            // a refused character leaves the parser in an error state: the caller clears it before the next numeral
+            r ==> np_wf(*final(self)) && np_size(*final(self)) <= np_size(*old(self)) + 40,
+            // C15: an accepted character updates the three accumulators exactly as the numeral system prescribes
+            r ==> np_step(*old(self), *c, *final(self)),
+//@end
+//@extract sudachi/src/plugin/path_rewrite/join_numeric/numeric_parser/mod.rs :: impl NumericParser :: fn done
+//@  ret r
+//@  spec
+        requires np_wf(*old(self)), np_size(*old(self)) <= 0x1000_0000,
+        ensures
+            // C15: an accepted numeral: total = total + subtotal + tmp, exactly
+            r ==> exists|m1: nat, e1: int| #[trigger] val_sum(sn_m(old(self).subtotal), sn_e(old(self).subtotal), sn_m(old(self).tmp), sn_e(old(self).tmp), m1, e1)
+                && val_sum(sn_m(old(self).total), sn_e(old(self).total), m1, e1, sn_m(final(self).total), sn_e(final(self).total)),
+            sn_wf(final(self).total), final(self).total.scale <= 0x3fff_ffff, final(self).total.significand@.len() <= 0x3fff_ffff,
+//@end
+//@extract sudachi/src/plugin/path_rewrite/join_numeric/numeric_parser/mod.rs :: impl NumericParser :: fn get_normalized
+//@  ret r
+//@  spec
+        requires sn_wf(old(self).total), old(self).total.scale <= 0x3fff_ffff, old(self).total.significand@.len() <= 0x3fff_ffff,
+            old(self).total.point != 0 || old(self).total.significand@.len() == 0,
+        ensures
+            // the normalised form is the decimal rendering of the accumulated value
+            renders(r@, sn_m(old(self).total), if old(self).total.significand@.len() == 0 { 0 } else { sn_e(old(self).total) }),
+//@end
+}
+
 } // verus!
 fn main() {}
